@@ -281,9 +281,13 @@ theorem two_sweeps_if_one_shift_aux (batch : Nat) (hb : 0 < batch) (r : Nat → 
 /-- ids are store keys: no two vaults share one -/
 def NodupIds (w : World) : Prop := (w.vaults.map (·.id)).Nodup
 
+/-- no emergency control is on for the app and liquidation is whitelisted for it in one of the generations -/
+def GuardsOff (e : Env) (app : Nat) : Prop :=
+  (e.app app).esm = false ∧ (e.app app).kill = false ∧ ((e.app app).wl2 = true ∨ (e.app app).wl1 = true)
+
 /-- `w'` arises from `w` by removing vaults only, and every removed vault was on the unsafe side -/
 def Removes (e : Env) (w w' : World) : Prop :=
-  (∀ q, q ∈ w'.vaults → q ∈ w.vaults) ∧ (∀ q, q ∈ w.vaults → q ∉ w'.vaults → vaultUnsafe e q = true)
+  (∀ q, q ∈ w'.vaults → q ∈ w.vaults) ∧ (∀ q, q ∈ w.vaults → q ∉ w'.vaults → vaultUnsafe e q = true ∧ GuardsOff e q.app)
 
 theorem Removes.refl (e : Env) (w : World) : Removes e w w := ⟨fun _ h => h, fun _ h h' => absurd h h'⟩
 
@@ -320,8 +324,8 @@ theorem same_id_eq {l : List Vault} (hn : (l.map (·.id)).Nodup) {a b : Vault} (
       | tail _ hb' => exact ih hn.2 ha' hb'
 
 /-- the hand-over removes exactly the vault `v` (`L`: any duplicate-free list containing `v` and the current vaults) -/
-theorem handOver_spec (L : List Vault) (hL : (L.map (·.id)).Nodup) (w w' : World) (v : Vault) (a : Nat)
-    (hsub : ∀ q, q ∈ w.vaults → q ∈ L) (hv : v ∈ L) (h : handOver w v a = some w') :
+theorem handOver_spec (L : List Vault) (hL : (L.map (·.id)).Nodup) (w w' : World) (v : Vault) (a : Nat) (k : Amounts)
+    (hsub : ∀ q, q ∈ w.vaults → q ∈ L) (hv : v ∈ L) (h : handOver w v a k = some w') :
     ∀ q, q ∈ w'.vaults ↔ (q ∈ w.vaults ∧ q ≠ v) := by
   unfold handOver at h
   split at h
@@ -341,10 +345,10 @@ theorem vaultUnsafe_of_cr (e : Env) (v : Vault) (p : Product) (cr : Dec) (hp : e
   unfold vaultUnsafe vaultCRof
   simp [hp, hcr, hlt]
 
-theorem removes_of_handOver (e : Env) (L : List Vault) (hL : (L.map (·.id)).Nodup) (w w' : World) (v : Vault) (a : Nat)
-    (hsub : ∀ q, q ∈ w.vaults → q ∈ L) (hv : v ∈ L) (hu : vaultUnsafe e v = true) (h : handOver w v a = some w') :
+theorem removes_of_handOver (e : Env) (L : List Vault) (hL : (L.map (·.id)).Nodup) (w w' : World) (v : Vault) (a : Nat) (k : Amounts)
+    (hsub : ∀ q, q ∈ w.vaults → q ∈ L) (hv : v ∈ L) (hu : vaultUnsafe e v = true ∧ GuardsOff e v.app) (h : handOver w v a k = some w') :
     Removes e w w' := by
-  have hm := handOver_spec L hL w w' v a hsub hv h
+  have hm := handOver_spec L hL w w' v a k hsub hv h
   refine ⟨fun q hq => ((hm q).1 hq).1, fun q hq hnq => ?_⟩
   have : q = v := by
     apply Classical.byContradiction
@@ -352,62 +356,6 @@ theorem removes_of_handOver (e : Env) (L : List Vault) (hL : (L.map (·.id)).Nod
     exact hnq ((hm q).2 ⟨hq, hne⟩)
   subst this
   exact hu
-
-/-- generation 2, one position: only the addressed vault can disappear, and only when it is unsafe -/
-theorem liquidateVaultV2_removes (e : Env) (L : List Vault) (hL : (L.map (·.id)).Nodup) (id : Nat) (w w' : World)
-    (hsub : ∀ q, q ∈ w.vaults → q ∈ L) (h : liquidateVaultV2 e id w = some w') : Removes e w w' := by
-  unfold liquidateVaultV2 at h
-  split at h
-  · cases h
-  · rename_i v hf
-    obtain ⟨_, hv⟩ := find_id_eq hf
-    simp only at h
-    split at h
-    · cases h
-    · split at h
-      · cases h
-      · split at h
-        · cases h
-        · rename_i p hp
-          split at h
-          · cases h
-          · rename_i cr hcr
-            split at h
-            · rename_i hlt
-              split at h
-              · cases h
-              · split at h
-                · cases h
-                · exact removes_of_handOver e L hL w w' v p.assetIn hsub (hsub v hv)
-                    (vaultUnsafe_of_cr e v p cr hp hcr hlt) h
-            · simp only [Option.some.injEq] at h
-              subst h
-              exact Removes.refl e w
-
-/-- generation 1, one position of the sweep (the decision is taken on the snapshot `v` of the pass) -/
-theorem liquidateVaultV1_removes (e : Env) (L : List Vault) (hL : (L.map (·.id)).Nodup) (a : Nat) (v : Vault) (w w' : World)
-    (hsub : ∀ q, q ∈ w.vaults → q ∈ L) (hv : v ∈ L) (h : liquidateVaultV1 e a v w = some w') : Removes e w w' := by
-  unfold liquidateVaultV1 at h
-  split at h
-  · cases h
-  · split at h
-    · cases h
-    · rename_i p hp
-      split at h
-      · cases h
-      · rename_i cr hcr
-        split at h
-        · rename_i hlt
-          split at h
-          · cases h
-          · split at h
-            · cases h
-            · split at h
-              · cases h
-              · exact removes_of_handOver e L hL w w' v p.assetIn hsub hv (vaultUnsafe_of_cr e v p cr hp hcr hlt) h
-        · simp only [Option.some.injEq] at h
-          subst h
-          exact Removes.refl e w
 
 /-- a pass: every step removes only unsafe vaults ⇒ so does the fold with `ApplyFuncIfNoError` around each step -/
 theorem fold_removes (e : Env) (L : List Vault) (f : Vault → World → Option World)
@@ -533,26 +481,31 @@ theorem Bal.get_add_other (b : Bal) (k k' : Nat) (d : Int) (hne : k' ≠ k) : (B
     rw [this]; simp
 
 /-- effect of the hand-over on custody and on the auction book -/
-theorem handOver_effect (w w' : World) (v : Vault) (a : Nat) (hnn : 0 ≤ v.amountIn) (h : handOver w v a = some w') :
+theorem handOver_effect (w w' : World) (v : Vault) (a : Nat) (k : Amounts) (hnn : 0 ≤ v.amountIn) (h : handOver w v a k = some w') :
     w'.auctionBal.get a = w.auctionBal.get a + v.amountIn ∧
     w'.vaultBal.get a = w.vaultBal.get a - v.amountIn ∧
     (∀ a', a' ≠ a → w'.auctionBal.get a' = w.auctionBal.get a' ∧ w'.vaultBal.get a' = w.vaultBal.get a') ∧
     w'.poolBal = w.poolBal ∧
     w'.auctionId = w.auctionId + 1 ∧ w'.lockedId = w.lockedId + 1 ∧
-    w'.newAuctions = w.newAuctions ++ [{ id := w.auctionId + 1, locked := w.lockedId + 1, asset := a, amount := v.amountIn }] ∧
-    w'.newLocked = w.newLocked ++ [{ id := w.lockedId + 1, orig := v.id, app := v.app, amountIn := v.amountIn, isBorrow := false }] ∧
-    w'.counter = decU64 w.counter ∧ w'.borrows = w.borrows ∧ w'.offsets = w.offsets := by
+    w'.newAuctions = w.newAuctions ++ [{ id := w.auctionId + 1, locked := w.lockedId + 1, asset := a, amount := v.amountIn, target := k.target }] ∧
+    w'.newLocked = w.newLocked ++ [{ id := w.lockedId + 1, orig := v.id, app := v.app, amountIn := v.amountIn, isBorrow := false,
+                                     debt := k.debt, target := k.target, fee := k.fee, bonus := k.bonus, cr := k.cr, collValue := k.collValue }] ∧
+    w'.counter = decU64 w.counter ∧ w'.borrows = w.borrows ∧ w'.offsets = w.offsets ∧
+    w'.lendBal = w.lendBal ∧ w'.totalLend = w.totalLend ∧ w'.totalBorrowed = w.totalBorrowed ∧
+    (v.amountIn ≤ w.vaultBal.get a ∨ v.amountIn = 0) := by
   unfold handOver at h
   split at h
   · cases h
-  · simp only [Option.some.injEq] at h
+  · rename_i hc
+    simp only [Option.some.injEq] at h
     subst h
     simp only
     by_cases hp : v.amountIn > 0
     · simp only [hp, if_true]
       refine ⟨Bal.get_add_self _ _ _, ?_, fun a' hne => ⟨Bal.get_add_other _ _ _ _ hne, Bal.get_add_other _ _ _ _ hne⟩, ?_⟩
       · rw [Bal.get_add_self]; omega
-      · simp
+      · simp only [true_and]
+        exact Or.inl (by omega)
     · have h0 : v.amountIn = 0 := by omega
       simp [h0]
 
@@ -568,9 +521,11 @@ theorem vaultUnsafe_iff (e : Env) (v : Vault) (p : Product) (hp : e.product? v.p
   | none => simp
   | some cr => simp
 
+/-- generation 2: what a successful step did — nothing, or the hand-over of the addressed vault, which then was unsafe on
+its RECORDED debt, with every guard off (no ESM, no kill switch, whitelisted, Dutch auctions activated) -/
 theorem liquidateVaultV2_cases (e : Env) (id : Nat) (w w' : World) (h : liquidateVaultV2 e id w = some w') :
-    w' = w ∨ ∃ v p, w.vaults.find? (·.id == id) = some v ∧ e.product? v.prod = some p ∧ vaultUnsafe e v = true ∧
-      handOver w v p.assetIn = some w' := by
+    w' = w ∨ ∃ v p k, w.vaults.find? (·.id == id) = some v ∧ e.product? v.prod = some p ∧ vaultUnsafe e v = true ∧
+      GuardsOff e v.app ∧ (e.app v.app).dutch2 = true ∧ amountsV2 e p v = some k ∧ handOver w v p.assetIn k = some w' := by
   unfold liquidateVaultV2 at h
   split at h
   · cases h
@@ -578,9 +533,11 @@ theorem liquidateVaultV2_cases (e : Env) (id : Nat) (w w' : World) (h : liquidat
     simp only at h
     split at h
     · cases h
-    · split at h
+    · rename_i hg1
+      split at h
       · cases h
-      · split at h
+      · rename_i hg2
+        split at h
         · cases h
         · rename_i p hp
           split at h
@@ -590,18 +547,29 @@ theorem liquidateVaultV2_cases (e : Env) (id : Nat) (w w' : World) (h : liquidat
             · rename_i hlt
               split at h
               · cases h
-              · split at h
+              · rename_i hd
+                split at h
                 · cases h
-                · exact Or.inr ⟨v, p, hf, hp, vaultUnsafe_of_cr e v p cr hp hcr hlt, h⟩
+                · split at h
+                  · cases h
+                  · rename_i k hk
+                    have hg : GuardsOff e v.app := by
+                      simp only [Bool.or_eq_true, not_or, Bool.not_eq_true] at hg1
+                      simp only [Bool.not_eq_true', Bool.not_eq_false] at hg2
+                      exact ⟨hg1.1, hg1.2, Or.inl hg2⟩
+                    have hd' : (e.app v.app).dutch2 = true := by simpa using hd
+                    exact Or.inr ⟨v, p, k, hf, hp, vaultUnsafe_of_cr e v p cr hp hcr hlt, hg, hd', hk, h⟩
             · simp only [Option.some.injEq] at h
               exact Or.inl h.symm
 
 theorem liquidateVaultV1_cases (e : Env) (a : Nat) (v : Vault) (w w' : World) (h : liquidateVaultV1 e a v w = some w') :
-    w' = w ∨ ∃ p, e.product? v.prod = some p ∧ vaultUnsafe e v = true ∧ handOver w v p.assetIn = some w' := by
+    w' = w ∨ ∃ p k, v.app = a ∧ e.product? v.prod = some p ∧ vaultUnsafe e v = true ∧ (e.app a).auc1 = true ∧
+      amountsV1 e p v = some k ∧ handOver w v p.assetIn k = some w' := by
   unfold liquidateVaultV1 at h
   split at h
   · cases h
-  · split at h
+  · rename_i happ
+    split at h
     · cases h
     · rename_i p hp
       split at h
@@ -613,13 +581,37 @@ theorem liquidateVaultV1_cases (e : Env) (a : Nat) (v : Vault) (w w' : World) (h
           · cases h
           · split at h
             · cases h
-            · split at h
+            · rename_i hauc
+              split at h
               · cases h
-              · exact Or.inr ⟨p, hp, vaultUnsafe_of_cr e v p cr hp hcr hlt, h⟩
+              · split at h
+                · cases h
+                · rename_i k hk
+                  have ha : v.app = a := by simpa using happ
+                  have hauc' : (e.app a).auc1 = true := by simpa using hauc
+                  exact Or.inr ⟨p, k, ha, hp, vaultUnsafe_of_cr e v p cr hp hcr hlt, hauc', hk, h⟩
         · simp only [Option.some.injEq] at h
           exact Or.inl h.symm
 
-theorem handOver_removes_id (w w' : World) (v : Vault) (a : Nat) (h : handOver w v a = some w') :
+/-- generation 2, one position: only the addressed vault can disappear, and only when it is unsafe and unguarded -/
+theorem liquidateVaultV2_removes (e : Env) (L : List Vault) (hL : (L.map (·.id)).Nodup) (id : Nat) (w w' : World)
+    (hsub : ∀ q, q ∈ w.vaults → q ∈ L) (h : liquidateVaultV2 e id w = some w') : Removes e w w' := by
+  cases liquidateVaultV2_cases e id w w' h with
+  | inl h => rw [h]; exact Removes.refl e w
+  | inr h =>
+    obtain ⟨v, p, k, hf, _, hu, hg, _, _, ho⟩ := h
+    exact removes_of_handOver e L hL w w' v p.assetIn k hsub (hsub v (find_id_eq hf).2) ⟨hu, hg⟩ ho
+
+/-- generation 1, one position (the decision is taken on the snapshot `v` of the pass); the caller has checked the app's guards -/
+theorem liquidateVaultV1_removes (e : Env) (L : List Vault) (hL : (L.map (·.id)).Nodup) (a : Nat) (v : Vault) (w w' : World)
+    (hga : GuardsOff e a) (hsub : ∀ q, q ∈ w.vaults → q ∈ L) (hv : v ∈ L) (h : liquidateVaultV1 e a v w = some w') : Removes e w w' := by
+  cases liquidateVaultV1_cases e a v w w' h with
+  | inl h => rw [h]; exact Removes.refl e w
+  | inr h =>
+    obtain ⟨p, k, ha, _, hu, _, _, ho⟩ := h
+    exact removes_of_handOver e L hL w w' v p.assetIn k hsub hv ⟨hu, by rw [ha]; exact hga⟩ ho
+
+theorem handOver_removes_id (w w' : World) (v : Vault) (a : Nat) (k : Amounts) (h : handOver w v a k = some w') :
     ∀ q, q ∈ w'.vaults → q.id ≠ v.id := by
   unfold handOver at h
   split at h
@@ -630,8 +622,8 @@ theorem handOver_removes_id (w w' : World) (v : Vault) (a : Nat) (h : handOver w
     simp only [List.mem_filter, bne_iff_ne, ne_eq] at hq
     exact hq.2
 
-theorem handOver_some (w : World) (v : Vault) (a : Nat) (hb : v.amountIn ≤ w.vaultBal.get a) :
-    ∃ w', handOver w v a = some w' := by
+theorem handOver_some (w : World) (v : Vault) (a : Nat) (k : Amounts) (hb : v.amountIn ≤ w.vaultBal.get a) :
+    ∃ w', handOver w v a k = some w' := by
   unfold handOver
   have : ¬ (v.amountIn > 0 ∧ w.vaultBal.get a < v.amountIn) := by omega
   simp only [this, if_false]
@@ -644,31 +636,31 @@ theorem liquidateVaultV2_seizes (e : Env) (id : Nat) (w : World) (v : Vault) (p 
     (hesm : (e.app v.app).esm = false) (hkill : (e.app v.app).kill = false)
     (hwl : (e.app v.app).wl2 = true) (hdutch : (e.app v.app).dutch2 = true)
     (hpi : e.priceActive p.assetIn = true) (hpo : e.priceActive p.assetOut = true)
-    (hb : v.amountIn ≤ w.vaultBal.get p.assetIn) (hu : vaultUnsafe e v = true) :
-    ∃ w', liquidateVaultV2 e id w = some w' ∧ handOver w v p.assetIn = some w' ∧ ∀ q, q ∈ w'.vaults → q.id ≠ v.id := by
+    (hb : v.amountIn ≤ w.vaultBal.get p.assetIn) (hu : vaultUnsafe e v = true) (k : Amounts) (hk : amountsV2 e p v = some k) :
+    ∃ w', liquidateVaultV2 e id w = some w' ∧ handOver w v p.assetIn k = some w' ∧ ∀ q, q ∈ w'.vaults → q.id ≠ v.id := by
   obtain ⟨cr, hcr, hlt⟩ := (vaultUnsafe_iff e v p hp).1 hu
-  obtain ⟨w', hw'⟩ := handOver_some w v p.assetIn hb
-  refine ⟨w', ?_, hw', handOver_removes_id w w' v _ hw'⟩
+  obtain ⟨w', hw'⟩ := handOver_some w v p.assetIn k hb
+  refine ⟨w', ?_, hw', handOver_removes_id w w' v _ k hw'⟩
   unfold liquidateVaultV2
-  simp [hf, hesm, hkill, hwl, hdutch, hp, hcr, hlt, hpi, hpo, hw']
+  simp [hf, hesm, hkill, hwl, hdutch, hp, hcr, hlt, hpi, hpo, hk, hw']
 
 /-- generation 1 likewise (the app is whitelisted and has auction parameters; the debt price is needed only when the
 product prices its debt by the oracle) -/
 theorem liquidateVaultV1_seizes (e : Env) (a : Nat) (w : World) (v : Vault) (p : Product)
     (happ : v.app = a) (hp : e.product? v.prod = some p) (hauc : (e.app a).auc1 = true)
     (hpi : e.priceActive p.assetIn = true) (hpo : p.outOracle = true → e.priceActive p.assetOut = true)
-    (hb : v.amountIn ≤ w.vaultBal.get p.assetIn) (hu : vaultUnsafe e v = true) :
-    ∃ w', liquidateVaultV1 e a v w = some w' ∧ handOver w v p.assetIn = some w' ∧ ∀ q, q ∈ w'.vaults → q.id ≠ v.id := by
+    (hb : v.amountIn ≤ w.vaultBal.get p.assetIn) (hu : vaultUnsafe e v = true) (k : Amounts) (hk : amountsV1 e p v = some k) :
+    ∃ w', liquidateVaultV1 e a v w = some w' ∧ handOver w v p.assetIn k = some w' ∧ ∀ q, q ∈ w'.vaults → q.id ≠ v.id := by
   obtain ⟨cr, hcr, hlt⟩ := (vaultUnsafe_iff e v p hp).1 hu
-  obtain ⟨w', hw'⟩ := handOver_some w v p.assetIn hb
-  refine ⟨w', ?_, hw', handOver_removes_id w w' v _ hw'⟩
+  obtain ⟨w', hw'⟩ := handOver_some w v p.assetIn k hb
+  refine ⟨w', ?_, hw', handOver_removes_id w w' v _ k hw'⟩
   unfold liquidateVaultV1
   have h1 : (v.app != a) = false := by simp [happ]
   have h2 : (p.outOracle && !e.priceActive p.assetOut) = false := by
     cases ho : p.outOracle with
     | false => simp
     | true => simp [hpo ho]
-  simp [h1, hp, hcr, hlt, h2, hauc, hpi, hw']
+  simp [h1, hp, hcr, hlt, h2, hauc, hpi, hk, hw']
 
 /-! offsets -/
 theorem Offsets.get?_set_self (o : Offsets) (k v : Nat) : (Offsets.set o k v).get? k = some v := by
@@ -769,9 +761,11 @@ theorem flag_ids (id : Nat) (l : List Borrow) : (flag id l).map (·.id) = l.map 
 
 def NodupB (w : World) : Prop := (w.borrows.map (·.id)).Nodup
 
-/-- an unflagged borrow on the safe side keeps its record, flag included -/
+/-- an unflagged borrow keeps its record, flag included, when it is on the safe side (ratio AFTER the accrual ≤ applicable
+threshold) — or when the kill switch of its app is on, or its app is not whitelisted -/
 def KeepsB (e : Env) (w w' : World) : Prop :=
-  ∀ b, b ∈ w.borrows → b.liquidated = false → borrowUnsafe e b = false → b ∈ w'.borrows
+  ∀ b, b ∈ w.borrows → b.liquidated = false →
+    (borrowUnsafe e b = false ∨ (e.app b.app).kill = true ∨ (e.app b.app).wl2 = false) → b ∈ w'.borrows
 
 theorem same_id_eqB {l : List Borrow} (hn : (l.map (·.id)).Nodup) {a b : Borrow} (ha : a ∈ l) (hb : b ∈ l) (h : a.id = b.id) : a = b := by
   induction l with
@@ -790,19 +784,27 @@ theorem same_id_eqB {l : List Borrow} (hn : (l.map (·.id)).Nodup) {a b : Borrow
 
 
 /-- what a successful borrow step did: nothing, or the complete seizure of the addressed, unflagged, unsafe borrow -/
-def borrowSeized (w : World) (id : Nat) (b : Borrow) : World :=
+def borrowSeized (e : Env) (w : World) (id : Nat) (b : Borrow) (r : Dec) : World :=
+  let fee := Dec.truncateInt (Dec.mul (Dec.ofInt b.principal) b.pen)
+  let bonus := Dec.truncateInt (Dec.mul (Dec.ofInt b.principal) b.bon)
   { w with
     borrows := flag id w.borrows
-    poolBal := w.poolBal.add b.assetIn (- b.amountIn)
+    poolBal := (w.poolBal.add b.assetIn (- b.amountIn)).add b.cAsset (- b.amountIn)
     auctionBal := w.auctionBal.add b.assetIn b.amountIn
     lockedId := w.lockedId + 1
     auctionId := w.auctionId + 1
-    newLocked := w.newLocked ++ [{ id := w.lockedId + 1, orig := b.id, app := b.app, amountIn := b.amountIn, isBorrow := true }]
-    newAuctions := w.newAuctions ++ [{ id := w.auctionId + 1, locked := w.lockedId + 1, asset := b.assetIn, amount := b.amountIn }] }
+    newLocked := w.newLocked ++ [{ id := w.lockedId + 1, orig := b.id, app := b.app, amountIn := b.amountIn, isBorrow := true,
+                                   debt := b.principal, target := b.principal + fee, fee := fee, bonus := bonus, cr := r, collValue := b.amountIn }]
+    newAuctions := w.newAuctions ++ [{ id := w.auctionId + 1, locked := w.lockedId + 1, asset := b.assetIn, amount := b.amountIn,
+                                       target := b.principal + fee }]
+    totalBorrowed := w.totalBorrowed.add (statKey b.outPool b.assetOut) (- b.principal)
+    totalLend := w.totalLend.add (statKey b.pool b.assetIn) (- b.amountIn)
+    lendBal := if w.lendBal.get b.lendId - b.amountIn > 0 then w.lendBal.add b.lendId (- b.amountIn) else w.lendBal.remove b.lendId }
 
 theorem liquidateBorrowV2_cases (e : Env) (id : Nat) (w w' : World) (h : liquidateBorrowV2 e id w = some w') :
-    w' = w ∨ ∃ b, w.borrows.find? (·.id == id) = some b ∧ b.liquidated = false ∧ borrowUnsafe e b = true ∧
-      b.amountIn ≤ w.poolBal.get b.assetIn ∧ w' = borrowSeized w id b := by
+    w' = w ∨ ∃ b r, w.borrows.find? (·.id == id) = some b ∧ b.liquidated = false ∧ borrowRatio e b = some r ∧ borrowUnsafe e b = true ∧
+      (e.app b.app).kill = false ∧ (e.app b.app).wl2 = true ∧ (e.app b.app).dutch2 = true ∧
+      b.amountIn ≤ w.poolBal.get b.assetIn ∧ b.amountIn ≤ w.poolBal.get b.cAsset ∧ w' = borrowSeized e w id b r := by
   unfold liquidateBorrowV2 at h
   split at h
   · cases h
@@ -812,7 +814,8 @@ theorem liquidateBorrowV2_cases (e : Env) (id : Nat) (w w' : World) (h : liquida
     · rename_i hl
       split at h
       · cases h
-      · split at h
+      · rename_i hkill
+        split at h
         · cases h
         · rename_i r hr
           split at h
@@ -820,18 +823,26 @@ theorem liquidateBorrowV2_cases (e : Env) (id : Nat) (w w' : World) (h : liquida
             have hu : borrowUnsafe e b = true := by
               unfold borrowUnsafe; simp [hr, hgt]
             have hl' : b.liquidated = false := by simpa using hl
+            have hk' : (e.app b.app).kill = false := by simpa using hkill
             simp only at h
             split at h
             · cases h
-            · split at h
+            · rename_i hwl
+              split at h
               · cases h
               · rename_i hbal
                 split at h
                 · cases h
-                · split at h
+                · rename_i hbal2
+                  split at h
                   · cases h
-                  · simp only [Option.some.injEq] at h
-                    exact Or.inr ⟨b, hb, hl', hu, by omega, by rw [← h]; rfl⟩
+                  · rename_i hd
+                    split at h
+                    · cases h
+                    · simp only [Option.some.injEq] at h
+                      have hwl' : (e.app b.app).wl2 = true := by simpa using hwl
+                      have hd' : (e.app b.app).dutch2 = true := by simpa using hd
+                      exact Or.inr ⟨b, r, hb, hl', hr, hu, hk', hwl', hd', by omega, by omega, by rw [← h]; rfl⟩
           · simp only [Option.some.injEq] at h; exact Or.inl h.symm
 
 theorem liquidateBorrowV2_keeps (e : Env) (id : Nat) (w w' : World) (hn : NodupB w)
@@ -839,7 +850,7 @@ theorem liquidateBorrowV2_keeps (e : Env) (id : Nat) (w w' : World) (hn : NodupB
   cases liquidateBorrowV2_cases e id w w' h with
   | inl h => rw [h]; exact ⟨fun b hb _ _ => hb, hn⟩
   | inr h =>
-    obtain ⟨b0, hf, _, hu, _, hw⟩ := h
+    obtain ⟨b0, r0, hf, _, _, hu, hk0, hwl0, _, _, _, hw⟩ := h
     subst hw
     unfold KeepsB NodupB borrowSeized
     simp only
@@ -851,7 +862,10 @@ theorem liquidateBorrowV2_keeps (e : Env) (id : Nat) (w w' : World) (hn : NodupB
       intro he
       have : b = b0 := same_id_eqB hn hb hm0 (by rw [he, h0])
       subst this
-      rw [hu] at hs; cases hs
+      rcases hs with hs | hs | hs
+      · rw [hu] at hs; cases hs
+      · rw [hk0] at hs; cases hs
+      · rw [hwl0] at hs; cases hs
     unfold flag
     apply List.mem_map.mpr
     exact ⟨b, hb, by simp [hne]⟩
@@ -906,7 +920,7 @@ theorem liquidateBorrowV2_rel (e : Env) (id : Nat) (w w' : World) (hn : NodupB w
   cases liquidateBorrowV2_cases e id w w' h with
   | inl h => rw [h]; exact StepRel.refl e w
   | inr hc =>
-    obtain ⟨b0, hf, _, _, _, hw⟩ := hc
+    obtain ⟨b0, r0, hf, _, _, _, _, _, _, _, _, hw⟩ := hc
     have h0 := List.find?_some hf
     simp at h0
     refine ⟨?_, hk.1, ?_, ?_, fun _ => hk.2⟩
@@ -920,8 +934,12 @@ theorem liquidateBorrowV2_rel (e : Env) (id : Nat) (w w' : World) (hn : NodupB w
       by_cases hid : (x.id == id) = true
       · right
         simp only [hid, if_true] at hxe
-        refine ⟨{ id := w.lockedId + 1, orig := b0.id, app := b0.app, amountIn := b0.amountIn, isBorrow := true }, ?_, ?_, rfl,
-          { id := w.auctionId + 1, locked := w.lockedId + 1, asset := b0.assetIn, amount := b0.amountIn }, ?_, rfl, rfl⟩
+        refine ⟨{ id := w.lockedId + 1, orig := b0.id, app := b0.app, amountIn := b0.amountIn, isBorrow := true,
+                  debt := b0.principal, target := b0.principal + Dec.truncateInt (Dec.mul (Dec.ofInt b0.principal) b0.pen),
+                  fee := Dec.truncateInt (Dec.mul (Dec.ofInt b0.principal) b0.pen),
+                  bonus := Dec.truncateInt (Dec.mul (Dec.ofInt b0.principal) b0.bon), cr := r0, collValue := b0.amountIn }, ?_, ?_, rfl,
+          { id := w.auctionId + 1, locked := w.lockedId + 1, asset := b0.assetIn, amount := b0.amountIn,
+            target := b0.principal + Dec.truncateInt (Dec.mul (Dec.ofInt b0.principal) b0.pen) }, ?_, rfl, rfl⟩
         · unfold borrowSeized; simp
         · have hxi : x.id = id := by simpa using hid
           rw [← hxe]; simp only; rw [h0, hxi]
@@ -939,7 +957,7 @@ def Outcome.world? : Outcome → Option World
   | .ok w => some w
   | .panic => none
 
-theorem handOver_books (w w' : World) (v : Vault) (a : Nat) (h : handOver w v a = some w') :
+theorem handOver_books (w w' : World) (v : Vault) (a : Nat) (k : Amounts) (h : handOver w v a k = some w') :
     w'.borrows = w.borrows ∧ w'.offsets = w.offsets ∧ Grows w w' := by
   unfold handOver at h
   split at h
@@ -948,12 +966,12 @@ theorem handOver_books (w w' : World) (v : Vault) (a : Nat) (h : handOver w v a 
     exact ⟨rfl, rfl, ⟨_, rfl⟩, ⟨_, rfl⟩⟩
 
 theorem stepRel_of_vault_step (e : Env) (w w' : World) (hr : Removes e w w')
-    (hc : w' = w ∨ ∃ v a, handOver w v a = some w') : StepRel e w w' := by
+    (hc : w' = w ∨ ∃ v a k, handOver w v a k = some w') : StepRel e w w' := by
   cases hc with
   | inl h => subst h; exact StepRel.refl e _
   | inr h =>
-    obtain ⟨v, a, ho⟩ := h
-    obtain ⟨hb, _, hg⟩ := handOver_books w w' v a ho
+    obtain ⟨v, a, k, ho⟩ := h
+    obtain ⟨hb, _, hg⟩ := handOver_books w w' v a k ho
     refine ⟨hr, fun b hbm _ _ => by rw [hb]; exact hbm, hg, fun b' hb' hl' => Or.inl ⟨b', by rw [← hb]; exact hb', rfl, hl'⟩,
       fun hn => by unfold NodupB; rw [hb]; exact hn⟩
 
@@ -962,14 +980,14 @@ theorem liquidateVaultV2_rel (e : Env) (L : List Vault) (hL : (L.map (·.id)).No
   stepRel_of_vault_step e w w' (liquidateVaultV2_removes e L hL id w w' hsub h)
     (match liquidateVaultV2_cases e id w w' h with
      | Or.inl h => Or.inl h
-     | Or.inr ⟨v, p, _, _, _, ho⟩ => Or.inr ⟨v, p.assetIn, ho⟩)
+     | Or.inr ⟨v, p, k, _, _, _, _, _, _, ho⟩ => Or.inr ⟨v, p.assetIn, k, ho⟩)
 
 theorem liquidateVaultV1_rel (e : Env) (L : List Vault) (hL : (L.map (·.id)).Nodup) (a : Nat) (v : Vault) (w w' : World)
-    (hsub : ∀ q, q ∈ w.vaults → q ∈ L) (hv : v ∈ L) (h : liquidateVaultV1 e a v w = some w') : StepRel e w w' :=
-  stepRel_of_vault_step e w w' (liquidateVaultV1_removes e L hL a v w w' hsub hv h)
+    (hga : GuardsOff e a) (hsub : ∀ q, q ∈ w.vaults → q ∈ L) (hv : v ∈ L) (h : liquidateVaultV1 e a v w = some w') : StepRel e w w' :=
+  stepRel_of_vault_step e w w' (liquidateVaultV1_removes e L hL a v w w' hga hsub hv h)
     (match liquidateVaultV1_cases e a v w w' h with
      | Or.inl h => Or.inl h
-     | Or.inr ⟨p, _, _, ho⟩ => Or.inr ⟨v, p.assetIn, ho⟩)
+     | Or.inr ⟨p, k, _, _, _, _, _, ho⟩ => Or.inr ⟨v, p.assetIn, k, ho⟩)
 
 theorem fold_rel (e : Env) (L : List Vault) (f : Vault → World → Option World)
     (hf : ∀ v, v ∈ L → ∀ w w', (∀ q, q ∈ w.vaults → q ∈ L) → f v w = some w' → StepRel e w w')
@@ -1032,7 +1050,11 @@ theorem blockV2_rel (e : Env) (batch : Nat) (w w' : World) (hn : NodupIds w) (hb
       subst h
       exact StepRel.trans hr1 (foldB_rel e _ w1 (hr1.2.2.2.2 hb))
 
+/-- the app records of the environment are keyed by their id -/
+def AppsUnique (e : Env) : Prop := ∀ a, a ∈ e.apps → e.app a.id = a
+
 theorem appsLoopV1_rel (e : Env) (batch : Nat) (L : List Vault) (hL : (L.map (·.id)).Nodup) (apps : List App) (w w' : World)
+    (hA : ∀ a, a ∈ apps → e.app a.id = a ∧ a.wl1 = true)
     (hsub : ∀ q, q ∈ w.vaults → q ∈ L) (h : appsLoopV1 e batch apps w = some w') : StepRel e w w' := by
   induction apps generalizing w with
   | nil =>
@@ -1040,25 +1062,34 @@ theorem appsLoopV1_rel (e : Env) (batch : Nat) (L : List Vault) (hL : (L.map (·
     simp only [Option.some.injEq] at h; subst h; exact StepRel.refl e w
   | cons a rest ih =>
     unfold appsLoopV1 at h
+    have hA' : ∀ a', a' ∈ rest → e.app a'.id = a' ∧ a'.wl1 = true := fun a' ha' => hA a' (by simp [ha'])
     split at h
-    · exact ih w hsub h
-    · simp only at h
+    · exact ih w hA' hsub h
+    · rename_i hoff
+      simp only at h
       split at h
       · cases h
       · rename_i w1 hvp
+        have hga : GuardsOff e a.id := by
+          obtain ⟨he, hw⟩ := hA a (by simp)
+          simp only [Bool.or_eq_true, not_or, Bool.not_eq_true] at hoff
+          unfold GuardsOff; rw [he]; exact ⟨hoff.2, hoff.1, Or.inr hw⟩
         have hr1 : StepRel e w w1 :=
           vaultPass_rel e L batch a.id _ (fun v => liquidateVaultV1 e a.id v)
-            (fun v hv x y hs hfv => liquidateVaultV1_rel e L hL a.id v x y hs hv hfv) w w1 hsub hvp
-        exact StepRel.trans hr1 (ih w1 (fun q hq => hsub q (hr1.1.1 q hq)) h)
+            (fun v hv x y hs hfv => liquidateVaultV1_rel e L hL a.id v x y hga hs hv hfv) w w1 hsub hvp
+        exact StepRel.trans hr1 (ih w1 hA' (fun q hq => hsub q (hr1.1.1 q hq)) h)
 
 /-- generation 1 block hook -/
-theorem blockV1_rel (e : Env) (batch : Nat) (w w' : World) (hn : NodupIds w)
+theorem blockV1_rel (e : Env) (batch : Nat) (w w' : World) (hU : AppsUnique e) (hn : NodupIds w)
     (h : (blockV1 e batch w).world? = some w') : StepRel e w w' := by
   unfold blockV1 at h
   split at h
   · cases h
   · rename_i w1 hl
-    have hr := appsLoopV1_rel e batch w.vaults hn _ w w1 (fun _ h => h) hl
+    have hr := appsLoopV1_rel e batch w.vaults hn _ w w1
+      (fun a ha => by
+        simp only [List.mem_filter] at ha
+        exact ⟨hU a ha.1, ha.2⟩) (fun _ h => h) hl
     simp only at h
     split at h
     · cases h
@@ -1083,12 +1114,18 @@ theorem msgLiquidateVaultV1_rel (e : Env) (app id : Nat) (w w' : World) (hn : No
   simp only at h
   split at h
   · cases h
-  · split at h
+  · rename_i hwl
+    split at h
     · cases h
-    · split at h
+    · rename_i hoff
+      split at h
       · cases h
       · rename_i v hf
-        exact liquidateVaultV1_rel e w.vaults hn app v w w' (fun _ h => h) (find_id_eq hf).2 h
+        have hga : GuardsOff e app := by
+          simp only [Bool.or_eq_true, not_or, Bool.not_eq_true] at hoff
+          simp only [Bool.not_eq_true', Bool.not_eq_false] at hwl
+          exact ⟨hoff.2, hoff.1, Or.inr hwl⟩
+        exact liquidateVaultV1_rel e w.vaults hn app v w w' hga (fun _ h => h) (find_id_eq hf).2 h
 
 /-! offsets: the borrow pass does not touch the vault sweep's offset -/
 theorem Offsets.get?_set_other (o : Offsets) (k k' v : Nat) (hne : k' ≠ k) : (Offsets.set o k v).get? k' = o.get? k' := by
@@ -1135,7 +1172,7 @@ theorem liquidateBorrowV2_offsets (e : Env) (id : Nat) (w w' : World) (h : liqui
     w'.offsets = w.offsets := by
   cases liquidateBorrowV2_cases e id w w' h with
   | inl h => rw [h]
-  | inr h => obtain ⟨b, _, _, _, _, hw⟩ := h; rw [hw]; rfl
+  | inr h => obtain ⟨b, r, _, _, _, _, _, _, _, _, _, hw⟩ := h; rw [hw]; rfl
 
 theorem foldB_offsets (e : Env) (ids : List Nat) (w : World) :
     (ids.foldl (fun acc id => applyIfNoError (liquidateBorrowV2 e id) acc) w).offsets = w.offsets := by
@@ -1169,5 +1206,21 @@ theorem blockV2_vault_offset (e : Env) (batch : Nat) (w w' : World) (h : blockV2
       rw [Offsets.get?_set_other _ 1 0 _ (by omega), foldB_offsets]
       exact h0
 
+
+
+/-- generation 2: an unflagged borrow that is unsafe AFTER the accrual and is handed to the step IS seized when the kill
+switch is off, the lend app is whitelisted with Dutch auctions, prices are active and the pool holds collateral and cTokens -/
+theorem liquidateBorrowV2_seizes (e : Env) (id : Nat) (w : World) (b : Borrow) (r : Dec)
+    (hf : w.borrows.find? (·.id == id) = some b) (hl : b.liquidated = false) (hr : borrowRatio e b = some r)
+    (hu : borrowUnsafe e b = true) (hkill : (e.app b.app).kill = false) (hwl : (e.app b.app).wl2 = true)
+    (hd : (e.app b.app).dutch2 = true) (hpi : e.priceActive b.assetIn = true) (hpo : e.priceActive b.assetOut = true)
+    (hb1 : b.amountIn ≤ w.poolBal.get b.assetIn) (hb2 : b.amountIn ≤ w.poolBal.get b.cAsset) :
+    liquidateBorrowV2 e id w = some (borrowSeized e w id b r) := by
+  have hgt : r > borrowThreshold b := by
+    unfold borrowUnsafe at hu; simp [hr] at hu; exact hu
+  have n1 : ¬ (w.poolBal.get b.assetIn < b.amountIn) := by omega
+  have n2 : ¬ (w.poolBal.get b.cAsset < b.amountIn) := by omega
+  unfold liquidateBorrowV2 borrowSeized flag
+  simp [hf, hl, hkill, hr, hgt, hwl, hd, hpi, hpo, n1, n2]
 
 end Comdex.Liquidation
